@@ -50,6 +50,11 @@ def tmpdir():
     return d
 
 
+class ShardAbort(BaseException):
+    """three cases of one shard hit the per-case watchdog: the shard stops and reports what it has (a change that makes
+    many inputs hang must be reported within minutes, not after every case has used its full budget)"""
+
+
 class CaseTimeout(BaseException):
     pass
 
@@ -199,6 +204,8 @@ class Collector:
     def observe(self, case):
         self.evaluations += 1
         fails = self.run_check(case)
+        if any(sub == 'hang' for sub, _ in fails):
+            self.hangs = getattr(self, 'hangs', 0) + 1
         try:
             nt = bool(self.mod.nontrivial(case))
         except Exception:
@@ -228,6 +235,8 @@ class Collector:
                 b['count'] += 1
                 if sz < b['size']:
                     b.update(case=case, detail=detail, size=sz, stage=self.stage, origin=self.origin)
+        if getattr(self, 'hangs', 0) >= 3:
+            raise ShardAbort()
         return fails
 
     def result(self, extra=None):
@@ -261,8 +270,11 @@ def _work(task):
         col = Collector(mod, stage.name)
         t0 = time.time()
         if stage.kind == 'enum':
-            for case in stage.cases(payload):
-                col.observe(case)
+            try:
+                for case in stage.cases(payload):
+                    col.observe(case)
+            except ShardAbort:
+                col.classes['<shard aborted after 3 hangs>'] += 1
             extra = dict(kind='enum')
         elif stage.kind == 'hyp':
             import hypothesis
@@ -276,7 +288,10 @@ def _work(task):
             @given(stage.strategy())
             def run(case):
                 col.observe(case)
-            run()
+            try:
+                run()
+            except ShardAbort:
+                col.classes['<shard aborted after 3 hangs>'] += 1
             extra = dict(kind='hyp', seed=sd)
         elif stage.kind == 'machine':
             import hypothesis
@@ -284,7 +299,10 @@ def _work(task):
             n, steps = payload
             sd = (vseed * 1000003 + si * 1009 + shard) & 0x7FFFFFFF
             cls = stage.factory(col.observe)
-            run_state_machine_as_test(hypothesis.seed(sd)(cls), settings=_hyp_settings(n, steps=steps))
+            try:
+                run_state_machine_as_test(hypothesis.seed(sd)(cls), settings=_hyp_settings(n, steps=steps))
+            except ShardAbort:
+                col.classes['<shard aborted after 3 hangs>'] += 1
             extra = dict(kind='machine', seed=sd)
         elif stage.kind == 'fuzz':
             import pickle
